@@ -25,7 +25,7 @@ TRUSTED_BASE = BASE_TRUSTED + [
 RULE = ('eleven closed-form stigmatic configurations (paraboloid at infinity, incl. after a fold mirror with Rc>0; spherical mirror at its centre of curvature; '
         'ellipsoid mirror focus-to-focus both ways; Cassegrain and Gregorian (hyperboloid/ellipsoid secondary); plano-hyperbolic singlet k=-n^2 both directions of travel; '
         'refracting ellipsoid; convex hyperboloid mirror from its far focus (virtual image, ray-level clauses); plano-hyperbolic + aplanatic meniscus, image in air or immersed), half of them reached through an edit history '
-        '(built with other conic/radius/thickness/index, incl. flat-first, then set_conic/set_radius/set_thickness/set_index); mirror-only configurations also immersed in a medium n in [1.3,4] (object and image space included) or as a solid catadioptric block (plane entrance face, mirrors as back surfaces), the optical path being re-computed as sum(n x segment length) with the indices of the generated PRESCRIPTION; conics also entered through the even-asphere / polynomial surface types with no polynomial term (Newton-Raphson path, rim ray inside 0.7|Rc|); Optic reached by lensgen.build_via routes handbuilt / reuse-after-reset / to_dict-from_dict; built 1/s times its size and brought to size by scale_system(s); every object checked against the generated prescription (lensgen.prescription_problems + object distance + EPD); 25 fixed corpus cases, one per class; the stop as a separate plane in contact (thickness 0) with the vertex of a convex conic, pupil-centre ray included; the axial field carries random vignetting factors (vx, vy independent, incl. 0 and unequal) in 40% of the instances; seeded radii 15..600 mm, n in [1.3,4], apertures from f/8 to f/0.6 '
+        '(built with other conic/radius/thickness/index, incl. flat-first, then set_conic/set_radius/set_thickness/set_index); mirror-only configurations also immersed in a medium n in [1.3,4] (object and image space included) or as a solid catadioptric block (plane entrance face, mirrors as back surfaces), the optical path being re-computed as sum(n x segment length) with the indices of the generated PRESCRIPTION; conics also entered through the even-asphere / polynomial surface types with no polynomial term (Newton-Raphson path, rim ray inside 0.7|Rc|); Optic reached by lensgen.build_via routes handbuilt / reuse-after-reset / to_dict-from_dict; built 1/s times its size and brought to size by scale_system(s); every object checked against the generated prescription (lensgen.prescription_problems + object distance + EPD); 25 fixed corpus cases, one per class; history class `a FLAT surface carries the conic constant, then receives its radius` (set_radius(inf) and back, with a query / a to_dict-from_dict round trip / a set_conic pair in between; built flat and given set_conic THEN set_radius, also after scale_system or in a solid block): 11 + 3 (virtual image) fixed cases and seeded ones from a stream of their own, spheres included; the stop as a separate plane in contact (thickness 0) with the vertex of a convex conic, pupil-centre ray included; the axial field carries random vignetting factors (vx, vy independent, incl. 0 and unequal) in 40% of the instances; seeded radii 15..600 mm, n in [1.3,4], apertures from f/8 to f/0.6 '
         '(NA to 0.9), 16-24 pupil points incl. the rim; FFTPSF sampled with every parity of num_rays, grid_size (odd grids 65..255) and of their difference; non-trivial = instance whose marginal ray is finite at the image')
 PARTIAL = [
     'conic_mirror_from_focus derives the vertex sheet from the distance kernel itself (sheet filter, dc4c87d); the plano-hyperbolic/aplanatic theorems and conic_mirror_stigmatic still take "the hit point lies on the vertex sheet of the conic" as a hypothesis (the exact hit distance '
@@ -233,6 +233,15 @@ def _instances(ctx, per_config, salt=0):
     for name in c06_lib.CONFIGS:
         for _ in range(per_config):
             out.append(c06_lib.gen_config(rng, name))
+    # history class `a flat surface carries the conic constant before it receives its radius`: fixed cases and seeded
+    # ones from a stream of their own, appended (the instances above and what is drawn for them stay as they were)
+    rng_fc = random.Random(ctx.seed * 131 + 6 + salt + 50021)
+    if salt == 0:
+        out.extend(c06_lib.corpus_flat_carry())
+    out.extend(c06_lib.random_flat_carry(rng_fc, max(2, per_config)))
+    for cfg in out:
+        if cfg.get('flat_carry'):
+            cfg['_rng'] = rng_fc
     return out, rng
 
 
@@ -242,6 +251,7 @@ def _witness(cfg, violations, n_sin_u=None):
             'medium_class': cfg.get('medium_class', 'air'), 'contact_stop': bool(cfg.get('contact_stop')),
             'entry': cfg.get('entry', 'standard'), 'route': cfg.get('route', 'direct'), 'route_seed': cfg.get('route_seed'),
             'scaled_by': cfg.get('scaled_by'), 'corpus_case': cfg.get('corpus'),
+            'flat_surface_carried_the_conic': cfg.get('flat_carry'),
             'image_in_glass': cfg.get('image_in_glass'), 'n_sin_u_image': n_sin_u,
             'violations': violations, 'violates_property': True}
 
@@ -284,7 +294,7 @@ def system_checks(ctx):
     for cfg in insts:
         try:
             o = c06_lib.build(cfg)
-            pts = c06_lib.pupil_points(rng, nr)
+            pts = c06_lib.pupil_points(cfg.get('_rng', rng), nr)
             recs = c06_lib.trace_pencil(o, pts, one_by_one=cfg.get('entry', 'standard') != 'standard')
         except Exception as e:     # noqa
             resA['disagreements'].append(_witness(cfg, [{'kind': 'build-or-trace-raises', 'error': repr(e)[:200]}]))
@@ -312,6 +322,7 @@ def system_checks(ctx):
             resA['histogram'][key] = resA['histogram'].get(key, 0) + 1
         for key in ('entry:' + cfg.get('entry', 'standard'), 'route:' + cfg.get('route', 'direct'),
                     'brought_to_size_by_scale_system' if cfg.get('scaled_by') else None,
+                    ('flat_surface_carried_conic:' + cfg['flat_carry']) if cfg.get('flat_carry') else None,
                     'fixed_corpus_case' if cfg.get('corpus') else None):
             if key and key not in ('entry:standard', 'route:direct'):
                 resA['histogram'][key] = resA['histogram'].get(key, 0) + 1
@@ -392,7 +403,7 @@ def system_checks(ctx):
         ps = None
         try:
             # all parities of num_rays, grid_size and of their difference, odd grids up to 255
-            npsf, grid = c06_lib.psf_sampling_cycle(inst_i, rng)
+            npsf, grid = c06_lib.psf_sampling_cycle(inst_i, cfg.get('_rng', rng))
             ps = FFTPSF(o, (0.0, 0.0), c06_lib.WL, num_rays=npsf, grid_size=grid)
         except Exception as e:     # noqa
             resC['disagreements'].append(_witness(cfg, [{'kind': 'psf-raises', 'error': repr(e)[:200]}]))
@@ -460,6 +471,7 @@ def system_checks(ctx):
     import random as _random
     resD = {'name': 'virtual-image-ray-clauses', 'n': 0, 'nontrivial': 0, 'samples': [], 'disagreements': [],
             'histogram': {'vignetted': 0, 'reached_by_edit_history': 0, 'immersed_in_medium_n!=1': 0,
+                          'flat_surface_carried_conic': 0,
                           'plane_stop_in_contact_with_conic_vertex': 0}}
     rngD = _random.Random(ctx.seed * 977 + 6)
     # regression of the fixed finding conic-wrong-sheet: R = 11, k = -9/4, object at z = -22, NA 0.6 (the marginal
@@ -481,6 +493,7 @@ def system_checks(ctx):
     resD['histogram']['regression_cases'] = 1
     virt = c06_lib.corpus_virtual() + [c06_lib.gen_config(rngD, name) for name in c06_lib.VIRTUAL_CONFIGS
                                        for _ in range(ctx.n(10, 60))]
+    virt += c06_lib.corpus_virtual_flat_carry()      # appended: the draws of the instances above stay as they were
     for cfg in virt:
         for _once in (0,):
             name = cfg['name']
@@ -488,6 +501,7 @@ def system_checks(ctx):
             resD['n'] += nr
             resD['histogram']['vignetted'] += int(any(cfg.get('vignetting') or []))
             resD['histogram']['reached_by_edit_history'] += int(bool(cfg.get('edits')))
+            resD['histogram']['flat_surface_carried_conic'] += int(bool(cfg.get('flat_carry')))
             resD['histogram']['immersed_in_medium_n!=1'] += int(cfg.get('medium_class', 'air') != 'air')
             resD['histogram']['plane_stop_in_contact_with_conic_vertex'] += int(bool(cfg.get('contact_stop')))
             if bad:
